@@ -70,7 +70,7 @@ static Case gen_case() {
         break;
       case 3:
         s.kind = "fileset";  // tables, missing entries, non-table entries, dup?, iterators per handle, steps, reload_now between?, destroy order
-        s.p = {pick(0, 4), chance(30), chance(30), chance(60), pick(0, 2), pick(0, 20), chance(50), pick(0, 1)};
+        s.p = {pick(0, 4), chance(30), chance(30), chance(60), pick(0, 2), pick(0, 20), chance(50), pick(0, 1), weighted({40, 20, 20, 20})};
         break;
       default:
         s.kind = "pool";  // threads, writers sharing it, entries each
@@ -376,6 +376,30 @@ static void scn_fileset(const Scn &s, Result &r, const std::string &dir) {
   }
   for (auto it : its) step_iter(it, steps, false);
   for (auto &it : its) mtbl_iter_destroy(&it);  // iterators before their handle
+  // several rounds of setfile changes (members added back and removed again) each followed by a forced reload
+  std::vector<std::string> all_lines;
+  {
+    std::istringstream ls(lines);
+    std::string l;
+    while (std::getline(ls, l)) all_lines.push_back(l);
+  }
+  long rounds = P(s, 8);
+  for (long rd = 0; rd < rounds && !all_lines.empty(); rd++) {
+    std::string subset;
+    uint32_t mask = rnd();
+    for (size_t i = 0; i < all_lines.size(); i++)
+      if ((mask >> i) & 1) subset += all_lines[i] + "\n";
+    write_file(setfile, subset);
+    struct timespec ts[2] = {{1900000000 + rd * 10, 0}, {1900000000 + rd * 10, 0}};
+    utimensat(AT_FDCWD, setfile.c_str(), ts, 0);
+    mtbl_fileset_reload_now(rd % 2 && fs2 ? fs2 : fs);
+    struct mtbl_iter *it = mtbl_source_iter(mtbl_fileset_source(fs));
+    if (it) {
+      step_iter(it, 3, false);
+      mtbl_iter_destroy(&it);
+    }
+    r.tag("fileset_multi_reload");
+  }
   if (reload) {
     // change the setfile (drop the first table) and force a reload through one handle, then read through the other
     std::string rest = lines.substr(lines.find('\n') + 1);
